@@ -9,7 +9,8 @@
    Reading of the statements:
    - [re] is Go's anchored regexp match; the theorems hold for every [re].
    - a history is a list of (instant, op): OProcess a = the inhibitor's subscription delivered update a,
-     OGC = the rules' store GC ran (resolved alerts leave the cache, gcCallback prunes the index), OTick = time
+     OGC sel = the store GC of the rules selected by sel ran (resolved alerts leave the cache, gcCallback prunes
+     the index; each rule has its own ticker, any subset may run at any instant), OTick = time
      passes. [mono_from t0 h] = the instants do not decrease; the verdict is asked at an instant [now] not before
      the last one.
    - [firing h now s] = s is the latest update of its fingerprint in h and is not resolved at now
@@ -78,7 +79,7 @@ Proof. exists [ex_rule], ex_ha, (3 * ex_min), ex_t. vm_compute. repeat split; di
 (* (b) gc-deletes-index-of-other-source *)
 Definition ex_hb := [(0, OProcess (mkA ex_s1 1 (60 * ex_min) 1));
                      (ex_min, OProcess (mkA ex_s2 ex_min (6 * ex_min) ex_min));
-                     (15 * ex_min, OGC)].
+                     (15 * ex_min, OGC (fun _ => true))].
 Theorem c03_single_index_refuted_b :
   exists cfgs h now lset, mono_from 0 h /\ last_time 0 h <= now /\
     muted ex_re (run ex_re (map new_rule cfgs) h) lset now = true /\ old_muted ex_re cfgs h lset now = false.
@@ -108,7 +109,7 @@ Proof. vm_compute. repeat split; discriminate. Qed.
 
 Example c03_nonvacuous_order :
   (* the same updates in another order, with a GC in between: same latest update per fingerprint *)
-  let h2 := [(0, OProcess (mkA ex_s2 ex_min (6 * ex_min) ex_min)); (1, OGC); (2, OProcess (mkA ex_s1 1 (60 * ex_min) 1))] in
+  let h2 := [(0, OProcess (mkA ex_s2 ex_min (6 * ex_min) ex_min)); (1, OGC (fun _ => true)); (2, OProcess (mkA ex_s1 1 (60 * ex_min) 1))] in
   mono_from 0 h2 /\
   latest h2 ex_s1 = latest ex_hb ex_s1 /\ latest h2 ex_s2 = latest ex_hb ex_s2 /\
   muted ex_re (run ex_re (map new_rule [ex_rule]) h2) ex_t (17 * ex_min) = true.
